@@ -373,7 +373,8 @@ impl Compiled for AST {
             AST::Array { size, value } => {
                 match value.deref() {
                     AST::Boolean(_) | AST::Integer(_) | AST::Null |
-                    AST::AccessVariable { name:_ } | AST::AccessField { object:_, field:_ } => {
+                    AST::AccessVariable { name:_ } | AST::AccessField { object:_, field:_ }
+                    if is_constant_initializer(value.deref()) => {
                         size.deref().compile_into(program, active_buffer, global_environment, current_frame, true)?;
                         value.deref().compile_into(program, active_buffer, global_environment, current_frame, true)?;
                         active_buffer.emit(OpCode::Array);
@@ -639,6 +640,17 @@ impl Compiled for AST {
         };
 
         Ok(())
+    }
+}
+
+// An array initializer that is evaluated once and copied into every element: a literal, a variable,
+// or a field read from such an expression. Anything else may have side effects and is re-executed
+// for every element.
+fn is_constant_initializer(ast: &AST) -> bool {
+    match ast {
+        AST::Boolean(_) | AST::Integer(_) | AST::Null | AST::AccessVariable { .. } => true,
+        AST::AccessField { object, .. } => is_constant_initializer(object.deref()),
+        _ => false,
     }
 }
 
